@@ -65,3 +65,52 @@ def interpretation(m, meta):
         if tuple(got) != exp:
             bad.append((spec, tuple(got), exp))
     return {"reproduced": bool(bad), "input": "all combinations of the documented fields (80x30 terminal)", "observed": bad[:4]}
+
+
+def style(m, meta):
+    """the style part: the model's string first, then every string up to length 5 over the alphabet of the sub-grammars, against the
+    documented sub-grammar and meaning, on the real KittyImage / ITerm2Image"""
+    import itertools
+    import tests  # noqa: F401
+    from term_image.exceptions import StyleError
+    from term_image.image import ITerm2Image, KittyImage
+    docs = {KittyImage: re.compile(r"([LW])?(z-?\d+)?(m[01])?(c[0-9])?"), ITerm2Image: re.compile(r"([LWA])?()(m[01])?(c[0-9])?")}
+    meth = {"L": "lines", "W": "whole", "A": "anim"}
+    first = _s(m, "style_spec")
+    cands = ([first] if first else []) + ["".join(t) for n in range(1, 6) for t in itertools.product("LWAzmc-019 x", repeat=n)]
+    for cls, doc in docs.items():
+        for spec in cands:
+            mm = doc.fullmatch(spec)
+            seen = {}
+            orig = cls._check_style_args.__func__
+
+            def spy(c, args, seen=seen):
+                seen.update(args)
+                return dict(args)
+            cls._check_style_args = classmethod(spy)
+            try:
+                try:
+                    cls._check_style_format_spec(spec, spec)
+                    got = "accepted"
+                except StyleError:
+                    got = "rejected"
+                except Exception as e:
+                    got = f"{type(e).__name__}"
+            finally:
+                cls._check_style_args = classmethod(orig)
+            exp = "accepted" if mm else "rejected"
+            if got != exp:
+                return {"reproduced": True, "input": f"{cls.__name__} style part {spec!r}", "observed": got, "expected": exp}
+            if mm:
+                want = {}
+                if mm.group(1):
+                    want["method"] = meth[mm.group(1)]
+                if mm.group(2):
+                    want["z_index"] = int(mm.group(2)[1:])
+                if mm.group(3):
+                    want["mix"] = mm.group(3) == "m1"
+                if mm.group(4):
+                    want["compress"] = int(mm.group(4)[1])
+                if seen != want:
+                    return {"reproduced": True, "input": f"{cls.__name__} style part {spec!r}", "observed": repr(seen), "expected": repr(want)}
+    return {"reproduced": False, "input": f"{len(cands)} strings per class", "observed": []}
